@@ -17,7 +17,7 @@ func init() {
 	Registry["C04"] = Spec{
 		Fn:          c04,
 		Level:       "fault_enumeration",
-		Rule:        "scenarios {select, select+telemetry, insert with schema exchange, streamed insert (2-3 rounds + tail), LZ4/ZSTD/None variants, external data} x fault points taken from a fault-free pilot run of each scenario: server stream cut (EOF and reset) after every byte k (all k for streams <= 512 B, else 256 sampled) ; client write error after every byte k of the query's bytes; every callback invocation failing; an exception injected at every gate (before/after each client write, before each server packet, inside each callback, at each internal hook point: query/block encoded/flushed, packet code read, cancel-watch); unknown packet code and each well-formed but unexpected packet kind before each server packet; exception together with a write error at an unrelated byte, and an exception consumed while a write is in flight that then fails after 0, 1 or 7 more bytes. Post-state oracle after Do returned an error: the client is closed (then Do/Ping return ErrClosed without any call on the connection), or it is open and the client byte stream is at a packet boundary, a follow-up Ping writes exactly 04 and completes. Do must return. Non-trivial = the planned fault fired and Do returned an error; distinct = (scenario, fault kind, fault point)",
+		Rule:        "scenarios {select, select+telemetry, insert with schema exchange, streamed insert (2-3 rounds + tail), LZ4/ZSTD/None variants, external data} x fault points taken from a fault-free pilot run of each scenario: server stream cut (EOF and reset) after every byte k (all k for streams <= 512 B, else 256 sampled) ; client write error after every byte k of the query's bytes; every callback invocation failing (with a plain error, and with an error that wraps a *ch.Exception obtained elsewhere); an exception injected at every gate (before/after each client write, before each server packet, inside each callback, at each internal hook point: query/block encoded/flushed, packet code read, cancel-watch); unknown packet code and each well-formed but unexpected packet kind before each server packet; exception together with a write error at an unrelated byte, and an exception consumed while a write is in flight that then fails after 0, 1 or 7 more bytes. Post-state oracle after Do returned an error: the client is closed (then Do/Ping return ErrClosed without any call on the connection), or it is open and the client byte stream is at a packet boundary, a follow-up Ping writes exactly 04 and completes. Do must return. Non-trivial = the planned fault fired and Do returned an error; distinct = (scenario, fault kind, fault point)",
 		Assumptions: []string{"a finite read timeout (100 ms) so that a cancelled receive loop ends; exceptions are injected at packet boundaries of the server stream and nothing is sent after them, as a server does"},
 		MinDistinct: 300,
 	}
@@ -63,7 +63,7 @@ func c04(r *core.Run) {
 		}
 		for _, g := range gates {
 			if strings.HasPrefix(g, "cb:") {
-				plans = append(plans, &fault{Kind: "callback-fail", Gate: g})
+				plans = append(plans, &fault{Kind: "callback-fail", Gate: g}, &fault{Kind: "callback-fail-wrapping-exception", Gate: g})
 			}
 			plans = append(plans, &fault{Kind: "exception", Gate: g})
 			if strings.HasPrefix(g, "hook:sender:") || strings.HasPrefix(g, "write:") || strings.HasPrefix(g, "cb:input") {
